@@ -86,7 +86,7 @@ type evaluator struct {
 
 // Eval evaluates p on the document root.
 func Eval(p *gen.Path, root interface{}, funcs Funcs) *Result {
-	e := &evaluator{root: root, funcs: funcs, res: &Result{TouchedT: map[string]int{}}, record: true, ctx: "main"}
+	e := &evaluator{root: root, funcs: funcs, res: &Result{TouchedT: map[string]int{}}, record: true, ctx: "main", pure: true}
 	e.res.Nodes = e.evalPath(p, Node{V: root})
 	return e.res
 }
@@ -436,7 +436,7 @@ func SubIndexes(s *gen.Sub, n int) []int {
 func (e *evaluator) filterVerdicts(q *gen.Query, members []interface{}) []bool {
 	saveRecord, saveCtx, savePure := e.record, e.ctx, e.pure
 	e.record = false
-	e.pure = q.Kind == gen.QExists || q.Kind == gen.QCmp || q.Kind == gen.QRegex
+	e.pure = savePure && (q.Kind == gen.QExists || q.Kind == gen.QCmp || q.Kind == gen.QRegex)
 	out := make([]bool, len(members))
 	for i := range members {
 		out[i] = e.holds(q, members[i])
